@@ -38,6 +38,19 @@ PROP = {
         "files": _E1 + ["lnwallet/c01_test.go", "lnwallet/c05_test.go"],
         "shards": {"quick": 12, "thorough": 16},
         "watchdog": {"quick": 900, "thorough": 5400},
-        "floors": {"quick": {}, "thorough": {}},
+        "floors": {"quick": {"closes_checked": 2500, "nontrivial": 1800, "nontrivial_local": 700,
+                             "nontrivial_remote-current": 500, "nontrivial_remote-pending": 400,
+                             "nontrivial_after_reload": 60,
+                             "oracle_local_commit_valid": 1000, "oracle_local_timeout_tx_valid": 500,
+                             "oracle_local_success_tx_valid": 900, "oracle_second_level_sweep_valid": 1500,
+                             "oracle_second_level_resign_valid": 1000, "oracle_to_local_sweep_valid": 900,
+                             "oracle_to_remote_sweep_valid": 1300, "oracle_remote_htlc_success_valid": 700,
+                             "oracle_remote_htlc_timeout_valid": 1200, "oracle_anchor_sweep_valid": 1600,
+                             "oracle_value_claimable": 2500,
+                             "negctl_to_local_csv_minus_1": 800, "negctl_second_level_csv_minus_1": 1500,
+                             "negctl_timeout_tx_locktime_minus_1": 500, "negctl_success_tx_wrong_preimage": 900,
+                             "negctl_remote_timeout_locktime_minus_1": 1200,
+                             "negctl_remote_success_wrong_preimage": 700, "negctl_to_remote_csv_0": 900},
+                   "thorough": {"closes_checked": 50000, "nontrivial": 35000, "nontrivial_remote-pending": 8000}},
     }],
 }
